@@ -345,3 +345,62 @@ theorem prependTail_far {f : Forest} {p c : Nat} {t : HTree} {vp : Value} {Lp : 
         simp [join, Keep.resident, htc]
 
 end XotModel
+
+namespace XotModel
+open HTree Spec
+
+theorem occupied_firstNormal {f : Forest} {p c : Nat} {vp : Value} {Lp : List HTree} (sp : SiteAt f p vp Lp) :
+    Dest.occupiedBy f c (.firstNormalChildOf p) = (((Lp.dropWhile abn).head?).map (·.handle) == some c) := by
+  simp only [Dest.occupiedBy, Forest.kidsOf_of_get sp.kids]
+  rfl
+
+/-- **prepend**, when the moved node is not already a child of `p`. -/
+theorem prepend_spec_far {f : Forest} {p c : Nat} (inv : f.Inv) (norm : f.Normal)
+    (hfar : f.parent? c ≠ some p) (hok : (f.prepend p c).2 = .ok) :
+    (f.prepend p c).1 = specMove (Keep.resident c) (.firstNormalChildOf p) c f := by
+  have nd := inv.nodup
+  have hsc : f.structureCheck (some p) c = true := by
+    cases h : f.structureCheck (some p) c with
+    | true => rfl
+    | false => rw [prepend_unfold] at hok; simp [h] at hok
+  obtain ⟨vp, Lp, t, hgp, hgc, hpt, hnorm, hndoc, hvp⟩ := Forest.structureCheck_unpack nd hsc
+  have sp : SiteAt f p vp Lp := ⟨nd, hgp⟩
+  have htc : t.handle = c := (findList?_some f.roots t hgc).1
+  have hfirst : f.firstChild p = ((Lp.dropWhile abn).head?).map (·.handle) := Forest.firstChild_of_get hgp
+  have hoccEq := occupied_firstNormal (c := c) sp
+  by_cases hsame : ((Lp.dropWhile abn).head?).map (·.handle) = some c
+  · rw [prepend_unfold]
+    unfold specMove
+    simp [hsc, hfirst, hsame, hoccEq]
+  · have hocc : Dest.occupiedBy f c (.firstNormalChildOf p) = false := by
+      rw [hoccEq]; simpa using hsame
+    rw [prepend_unfold] at hok ⊢
+    simp only [hsc, hfirst, Bool.not_true, Bool.false_eq_true, if_false, beq_iff_eq, hsame] at hok ⊢
+    rcases Forest.root_or_ctx hgc with hroot | ⟨cx, hctx⟩
+    · have hno := Forest.ctx_none_of_root nd hroot
+      rw [Forest.prevSibling_of_no_ctx hno, Forest.removeConsolidate_none_left] at hok ⊢
+      exact prependTail_far inv norm (far_root hgc hno sp hpt) sp hgc (Or.inl rfl) hpt hnorm hsame hocc hok
+    · obtain ⟨e0, vo, so⟩ := SiteAt.of_ctx nd hctx
+      have hself : cx.self = t := by
+        have := Forest.get?_of_ctx nd hctx
+        rw [hgc] at this
+        exact (Option.some.inj this).symm
+      obtain ⟨po, l, k, r⟩ := cx
+      simp only at e0 so hself
+      subst hself
+      subst htc
+      have hpo : po ≠ p := by
+        intro e
+        apply hfar
+        rw [Forest.parent?_of_ctx hctx, e]
+      rw [Forest.prevSibling_of_ctx hctx, Forest.nextSibling_of_ctx hctx] at hok ⊢
+      simp only at hok ⊢
+      have hvq : vp.isText = false := by
+        cases hvp with
+        | inl h => cases vp <;> simp_all [Value.isElement, Value.isText]
+        | inr h => cases vp <;> simp_all [Value.isDocument, Value.isText]
+      obtain ⟨φ, F⟩ := far_kid (keep := Keep.resident k.handle) inv norm (Keep.resident_spec k.handle)
+        so sp hpo hpt hvq
+      exact prependTail_far inv norm F sp hgc (old_stage inv norm so).same_or_not_text hpt hnorm hsame hocc hok
+
+end XotModel
